@@ -261,6 +261,13 @@ def witness_search(fn, outs):
                         yield {'time': T_, 'rate': r, 'accel': a, 'jerk': j}
         for pt in motion.grid_points(names, limit=4000):
             yield pt
+        # moves around and beyond the 2^31 - 1 rate limit: telling those apart is what the
+        # report is for (a report that saturates hides them)
+        for T_ in (1, 3, 6):
+            for r in (2147483647, -2147483647, 2147480000, -2147480000, 3000000000, -3000000000):
+                for a in (0, 5000, -5000):
+                    for j in (0, 10, -10):
+                        yield {'time': T_, 'rate': r, 'accel': a, 'jerk': j}
     for pt in points():
         T_ = pt['time']
         rates = [abs(motion.rate_t3_oracle(Sym.const(k)).evaluate(pt)) for k in range(1, T_ + 1)]
